@@ -18,14 +18,14 @@ Proof. unfold build_struct_entry. cbn [en_kind set_dump]. destruct (en_kind e); 
 Lemma struct_outcome_dump s h fs e :
   struct_outcome s h fs (set_dump e true) = dumped (struct_outcome s h fs (set_dump e false)).
 Proof.
-  unfold struct_outcome. rewrite !build_struct_entry_set_dump. unfold apply_dump. cbn [en_dump set_dump].
-  destruct (build_struct_entry s h fs e); reflexivity.
+  unfold struct_outcome. rewrite !build_struct_entry_set_dump. unfold apply_dump. cbn [en_dump en_kind set_dump].
+  destruct (build_struct_entry s h _ e); reflexivity.
 Qed.
 
 Lemma struct_outcome_nodump s h fs e :
   en_dump e = false -> struct_outcome s h fs e = struct_outcome s h fs (set_dump e false).
 Proof.
-  intros H. unfold struct_outcome. rewrite build_struct_entry_set_dump. unfold apply_dump.
+  intros H. unfold struct_outcome. rewrite build_struct_entry_set_dump. unfold apply_dump. cbn [en_kind set_dump].
   cbn [en_dump set_dump]. now rewrite H.
 Qed.
 
